@@ -734,7 +734,7 @@ func init() {
 		Assumptions: []string{"sentinels accepted on uninitialised receivers: Kind()=<invalid_stack>, ID()=unspecified, any Addr() text, true from IsEmpty/IsZero/IsPadded, any error from Free/Marshal; Valid and IsEqual must return a non-nil error there"},
 		Floors: func(string) map[string]int64 {
 			return map[string]int64{"calls.zero-stack": 150, "calls.freed-stack": 150, "calls.zero-cond": 80, "calls.freed-cond": 80, "calls.init-cond": 80,
-				"calls.package-function": 100, "lifecycle.reset.with-nils": 100, "lifecycle.free.stack": 100}
+				"calls.package-function": 100, "init-over-live-condition": 200, "cases.with-bystander-goroutines": 800, "lifecycle.reset.with-nils": 100, "lifecycle.free.stack": 100}
 		},
 		Exhaustive: func(string) bool { return false },
 	})
